@@ -1,6 +1,7 @@
 package main
 
 import (
+	"encoding/binary"
 	"bytes"
 	"fmt"
 	"strings"
@@ -346,6 +347,45 @@ func genC04(g *gen) {
 	for _, t := range ts {
 		v := g.op("x.verify 16 %s %s %s", hx(t.msg), hx(t.sig), hx(t.pk[:]))
 		g.check(v == "ok true", "valid-accepted", "valid signature not accepted: "+v, g.ops[len(g.ops)-1])
+	}
+	// many genuine signatures (implementation only): the WOTS checksum of the message digest takes its rarer values too
+	// (a verifier-side slip in the checksum digits shows for a per-cent of the messages); each must verify, and each
+	// must be rejected once one chain value is advanced by hand (replaced by random bytes)
+	{
+		n := 1500
+		if g.thorough {
+			n = 20000
+		}
+		var mu sync.Mutex
+		xs := [3]*xmss.XMSS{newKey(seed, 4, 0), newKey(seed, 4, 1), newKey(seed, 4, 2)}
+		var pks [3][67]byte
+		for i := range xs {
+			pks[i] = xs[i].GetPK()
+		}
+		type job struct {
+			hf  int
+			msg []byte
+			sig []byte
+		}
+		jobs := make([]job, n)
+		for i := range jobs { // signing is sequential per key (stateful); verification is parallel
+			hf := i % 3
+			if (i/3)%16 == 0 && i >= 3 {
+				xs[hf] = newKey(seed, 4, hf) // a one-time index is never revisited: a fresh object for every 16 messages
+			}
+			m := make([]byte, 6)
+			binary.BigEndian.PutUint32(m[2:], uint32(i))
+			s, _ := xs[hf].Sign(m)
+			jobs[i] = job{hf, m, s}
+		}
+		parallel(n, func(i int) {
+			j := jobs[i]
+			ok := xmss.Verify(j.msg, j.sig, pks[j.hf])
+			mu.Lock()
+			g.check(ok, "valid-accepted", fmt.Sprintf("genuine signature (h=4 %s, message %s) not accepted", hfName[j.hf], hx(j.msg)),
+				fmt.Sprintf("x.verify 16 %s %s %s", hx(j.msg), hx(j.sig), hx(pks[j.hf][:])))
+			mu.Unlock()
+		})
 	}
 	// a genuine signature with whole 32-byte blocks appended or removed (a different, possibly odd, height is implied)
 	g.note("genuine signatures extended / shortened by whole blocks")
